@@ -64,7 +64,103 @@ def extract(tree):
     if a["readMidMod"] * a["readMidMul"] > sub:
         raise ExtractError("readint: sign fill overlaps payload bits, `|=` is not an addition")
     a["readSignSub"] = sub
+    a.update(extract_size(tree, src))
     return lb, a
+
+
+def extract_size(tree, src):
+    """push64/read64 threshold, recursion guard."""
+    p64 = csrc.func_body(src, "push64")
+    r64 = csrc.func_body(src, "read64")
+    m = re.search(r"if\s*\(\s*x\s*<=\s*(\w+)\s*\)\s*\{\s*pushbyte\s*\(\s*st\s*,\s*\(uint8_t\)\s*x\s*\)\s*;\s*\}\s*else\s*\{\s*uint8_t\s+bytes\[9\]\s*;\s*int\s+nbytes\s*=\s*0\s*;"
+                  r"\s*while\s*\(\s*x\s*\)\s*\{\s*bytes\[\+\+nbytes\]\s*=\s*x\s*&\s*0xFF\s*;\s*x\s*>>=\s*8\s*;\s*\}\s*bytes\[0\]\s*=\s*(\w+)\s*\+\s*nbytes\s*;"
+                  r"\s*pushbytes\s*\(\s*st\s*,\s*bytes\s*,\s*nbytes\s*\+\s*1\s*\)\s*;", p64)
+    if not m:
+        raise ExtractError("push64: shape not recognised")
+    t1, t2 = csrc.cint(m.group(1)), csrc.cint(m.group(2))
+    m = re.search(r"if\s*\(\s*\*data\s*<=\s*(\w+)\s*\)\s*\{\s*ret\s*=\s*\*data\s*;\s*\*atdata\s*=\s*data\s*\+\s*1\s*;\s*\}\s*else\s*\{\s*int\s+nbytes\s*=\s*\*data\s*-\s*(\w+)\s*;\s*ret\s*=\s*0\s*;"
+                  r"\s*if\s*\(\s*nbytes\s*>\s*8\s*\)\s*janet_panic\s*\([^;]*;\s*MARSH_EOS\s*\(\s*st\s*,\s*data\s*\+\s*nbytes\s*\)\s*;"
+                  r"\s*for\s*\(\s*int\s+i\s*=\s*nbytes\s*;\s*i\s*>\s*0\s*;\s*i--\s*\)\s*ret\s*=\s*\(ret\s*<<\s*8\)\s*\+\s*data\[i\]\s*;\s*\*atdata\s*=\s*data\s*\+\s*nbytes\s*\+\s*1\s*;", r64)
+    if not m:
+        raise ExtractError("read64: shape not recognised")
+    t3, t4 = csrc.cint(m.group(1)), csrc.cint(m.group(2))
+    if not (t1 == t2 == t3 == t4):
+        raise ExtractError("push64/read64: thresholds disagree %r" % ((t1, t2, t3, t4),))
+    hdr = csrc.strip_comments(csrc.read(tree, "src/include/janet.h"))
+    m = re.search(r"#define\s+JANET_RECURSION_GUARD\s+(\d+)", hdr)
+    if not m:
+        raise ExtractError("JANET_RECURSION_GUARD not found")
+    guard = int(m.group(1))
+    if not re.search(r"#define\s+MARSH_STACKCHECK\s+if\s*\(\(flags\s*&\s*0xFFFF\)\s*>\s*JANET_RECURSION_GUARD\)", src):
+        raise ExtractError("MARSH_STACKCHECK: shape not recognised")
+    return {"push64Small": t1, "recursionGuard": guard}
+
+
+def _case_block(body, label):
+    m = re.search(r"case\s+%s\s*:\s*\{" % label, body)
+    if not m:
+        raise ExtractError("marshal_one: case %s not found" % label)
+    i = m.end() - 1
+    return body[i:csrc.match_brace(body, i)]
+
+
+def _pre(block, mark_re, child_re, what):
+    marks = [m.start() for m in re.finditer(mark_re, block)]
+    if len(marks) != 1:
+        raise ExtractError("%s: expected exactly one numbering point, found %d" % (what, len(marks)))
+    kids = [m.start() for m in re.finditer(child_re, block)]
+    if not kids:
+        return True
+    if marks[0] < kids[0]:
+        return True
+    if marks[0] > kids[-1]:
+        return False
+    raise ExtractError("%s: numbering point lies between child visits" % what)
+
+
+def extract_marks(tree):
+    """Where is a value numbered relative to its children?  marshal side: MARK_SEEN() vs marshal_one(...) inside each
+    `case JANET_X:` of marshal_one; unmarshal side: janet_v_push(st->lookup, ...) vs unmarshal_one(...) in each branch."""
+    src = csrc.strip_comments(csrc.read(tree, "src/core/marsh.c"))
+    mo = csrc.func_body(src, "marshal_one")
+    out = {}
+    # the second switch (reference types) is the one containing MARK_SEEN
+    idx = [m.start() for m in re.finditer(r"switch\s*\(\s*type\s*\)", mo)]
+    if len(idx) != 2:
+        raise ExtractError("marshal_one: expected two `switch (type)`")
+    sw = mo[idx[1]:]
+    for ty in ("ARRAY", "TUPLE", "TABLE", "STRUCT", "BUFFER", "NUMBER"):
+        out["markPre" + ty.capitalize()] = _pre(_case_block(sw, "JANET_" + ty), r"MARK_SEEN\s*\(\s*\)", r"\bmarshal_one\s*\(", "marshal_one/" + ty)
+    m = re.search(r"case\s+JANET_STRING\s*:\s*case\s+JANET_SYMBOL\s*:\s*case\s+JANET_KEYWORD\s*:\s*\{", sw)
+    if not m:
+        raise ExtractError("marshal_one: string case not found")
+    blk = sw[m.end() - 1:csrc.match_brace(sw, m.end() - 1)]
+    out["markPreString"] = _pre(blk, r"MARK_SEEN\s*\(\s*\)", r"\bmarshal_one\s*\(", "marshal_one/STRING")
+    # seen-table check happens before the registry check, both before the second switch
+    pre = mo[idx[0]:idx[1]]
+    a, b = pre.find("janet_table_get(&st->seen, x)"), pre.find("janet_table_get(st->rreg, x)")
+    if a < 0 or b < 0 or not a < b:
+        raise ExtractError("marshal_one: seen / registry lookups not recognised")
+    uo = csrc.func_body(src, "unmarshal_one")
+    def branch(cond):
+        m = re.search(cond + r"\s*\{", uo)
+        if not m:
+            raise ExtractError("unmarshal_one: branch %s not found" % cond)
+        return uo[m.end() - 1:csrc.match_brace(uo, m.end() - 1)]
+    push, kid = r"janet_v_push\s*\(\s*st->lookup\s*,", r"\bunmarshal_one\s*\("
+    out["pushPreArray"] = _pre(branch(r"if\s*\(\s*lead\s*==\s*LB_ARRAY\s*\|\|\s*lead\s*==\s*LB_ARRAY_WEAK\s*\)"), push, kid, "unmarshal_one/array")
+    out["pushPreTuple"] = _pre(branch(r"else\s+if\s*\(\s*lead\s*==\s*LB_TUPLE\s*\)"), push, kid, "unmarshal_one/tuple")
+    out["pushPreStruct"] = _pre(branch(r"else\s+if\s*\(\s*lead\s*==\s*LB_STRUCT\s*\|\|\s*lead\s*==\s*LB_STRUCT_PROTO\s*\)"), push, kid, "unmarshal_one/struct")
+    m = re.search(r"else\s+if\s*\(\s*lead\s*==\s*LB_REFERENCE\s*\)\s*\{", uo)
+    if not m:
+        raise ExtractError("unmarshal_one: reference branch not found")
+    j = csrc.match_brace(uo, m.end() - 1)
+    m2 = re.match(r"\s*else\s*\{", uo[j:])
+    if not m2:
+        raise ExtractError("unmarshal_one: table branch not found")
+    k = j + m2.end() - 1
+    out["pushPreTable"] = _pre(uo[k:csrc.match_brace(uo, k)], push, kid, "unmarshal_one/table")
+    return out
 
 
 def render(tree):
@@ -78,5 +174,9 @@ def render(tree):
     for k, v in c.items():
         ty = "Int" if k in ("pushMidHi", "pushMidLo", "pushSmallLim", "pushMidDiv", "pushMidMod", "pushLowMod") else "Nat"
         out.append("abbrev %s : %s := %s" % (k, ty, ("(%d)" % v) if v < 0 else str(v)))
+    out.append("\n/-- numbering point of each type relative to its children: `true` = before (MARK_SEEN / janet_v_push precedes the")
+    out.append("first recursive call), `false` = after the last one -/")
+    for k, v in extract_marks(tree).items():
+        out.append("abbrev %s : Bool := %s" % (k, "true" if v else "false"))
     out.append("\nend JanetModel.Gen.Marsh\n")
     return "\n".join(out)
